@@ -127,12 +127,47 @@ def main(rep):
             validated += v2
             for c in wcases:
                 nontrivial.add(c[1])
-        rep.cov["evaluations"] = len(pc) + len(wcases)
+        # "relative to the common parent of the watch roots": the real main() with one, two and three roots (equal,
+        # nested, siblings, unrelated, in every order) must hand the handler the offset of the deepest directory that
+        # contains ALL of them
+        import itertools
+        import main_common as mc
+        from check_C18 import deepest_common
+        roots = ["/", "/a", "/a/b", "/a/c", "/d", "/a/b/c"]
+        mcases = []
+        for k in (1, 2, 3):
+            for combo in itertools.product(roots, repeat=k):
+                args = []
+                for r in combo:
+                    args += ["-w", r]
+                real = {r: r for r in roots}
+                real["."] = "/cwd"
+                mcases.append(("m%d" % len(mcases), mc.main_case(args=args, real=real, mounted=["/"], slots=[]), list(combo)))
+        if not found:
+            impl, model, problems2 = vlib.correspond(exe_impl, exe_model, "main", [(c, t) for c, t, _ in mcases], sandbox=True)
+            problems += problems2
+            for cid, script, wroots in mcases:
+                il = impl.get(cid) or []
+                ld = [l for l in il if l.startswith("load ")]
+                cpl = min(deepest_common(a, b) for a in wroots for b in wroots)
+                if not ld or int(ld[0].split()[2]) != cpl:
+                    rep.violation("layout", {"case": cid, "script": script.split("\n"), "driver": "main", "implementation": il,
+                                             "what": "watch roots %s: store paths are made relative to offset %s, the common parent of all roots gives %d"
+                                                     % (wroots, ld[0].split()[2] if ld else None, cpl)})
+                    found = True
+                    break
+                if exe_model and il != model.get(cid):
+                    rep.defer_divergence({"case": cid, "script": script.split("\n"), "driver": "main", "implementation": il, "model": model.get(cid),
+                                          "what": "implementation and model differ on main() with roots %s" % wroots})
+                    continue
+                validated += 1
+        rep.cov["evaluations"] = len(pc) + len(wcases) + len(mcases)
         rep.cov["distinct_nontrivial"] = len(nontrivial)
         rep.cov["traces_validated_against_impl"] = validated
         rep.cov["input_distribution"] = {"names_exhaustive_and_random": sum(1 for c in pc if c[2][0] == "ext"),
-                                         "store_paths": sum(1 for c in pc if c[2][0] == "sp"), "world_histories": len(wcases)}
+                                         "store_paths": sum(1 for c in pc if c[2][0] == "sp"), "world_histories": len(wcases), "watch_root_tuples": len(mcases)}
         rep.cov["rule"] = ("extension: every name over {a,b,.,/} up to length %d plus random names; store paths with 0..1234 collisions; "
+                           "common parent: every tuple of 1-3 watch roots over {/, /a, /a/b, /a/c, /d, /a/b/c} through the real main(); "
                            "confinement: random handler histories (files, history paths, projects, deletions, reloads, restarts) with the call log of every "
                            "operation checked against the configured locations and the watched tree compared before/after each timeout pass; every new version must sit at "
                            "store_root/<relative path>/<version>[-k]<extension> of a file whose write was accepted and equal its source; "
@@ -148,6 +183,11 @@ def main(rep):
 
 def replay(rep, path):
     d = json.load(open(path))
+    if d.get("driver") == "main":
+        exe_impl, exe_model = vlib.prepare(rep)
+        impl, model, _ = vlib.correspond(exe_impl, exe_model, "main", [("replay", "\n".join(d["script"]))], sandbox=True)
+        print("implementation:", impl.get("replay"), "model:", model.get("replay"))
+        return 1 if impl.get("replay") != model.get("replay") else 0
     if d.get("driver") == "pure":
         exe_impl, exe_model = vlib.prepare(rep)
         impl, model, _ = vlib.correspond(exe_impl, exe_model, "pure", [("replay", "\n".join(d["script"]))])
